@@ -14,8 +14,13 @@ type Profile struct {
 	Propose, Conf, Apply, Crash, CrashMid, Restart float64
 	Compact, Transfer, SnapRep, Unreach, ReadIndex float64
 	Partition, Heal                                float64
-	PNoMore, PBusy, PRndZero, PAll                 float64
-	MaxConf                                        int
+	// a sleeping node is rarely stepped: its queues fill up between two Ready loops. Off (0) in every profile: a node that
+	// handles a vote response, leads, and is deposed inside ONE StepNode sends messages of a term that is over when the
+	// Ready goes out — legal, but the abstract acceptor relates messages to the sender's state at send time and rejects it.
+	Sleep, Wake                    float64
+	HoldSnap, SnapBatch            float64 // MsgSnap kept in the network; MsgSnap + the MsgApp that follows it delivered back to back, then one step
+	PNoMore, PBusy, PRndZero, PAll float64
+	MaxConf                        int
 }
 
 var Profiles = map[string]Profile{
@@ -40,28 +45,38 @@ var Profiles = map[string]Profile{
 	"paging": {Name: "paging", Tick: 3, Step: 8, Ready: 12, Deliver: 12, Redeliver: 1, Drop: 0.3, Propose: 4, Conf: 1.2, Apply: 1.2,
 		Crash: 0.05, CrashMid: 0.08, Restart: 1.5, Compact: 0.3, Transfer: 0.15, SnapRep: 1, Unreach: 0.05, ReadIndex: 0.03, Partition: 0.25, Heal: 0.4,
 		PNoMore: 0.25, PBusy: 0.02, PRndZero: 0.5, PAll: 0.75, MaxConf: 10},
+	// lagging followers: frequent compaction, snapshots, duplicated old messages, and nodes that are not stepped for a
+	// while so that several messages (MsgSnap followed by MsgApp, vote + append, ...) are handled by ONE StepNode
+	"lagsnap": {Name: "lagsnap", Tick: 2, Step: 8, Ready: 12, Deliver: 12, Redeliver: 2.5, Drop: 0.2, Propose: 4, Conf: 0.15, Apply: 5,
+		Crash: 0.03, CrashMid: 0.05, Restart: 1.5, Compact: 2.5, Transfer: 0.05, SnapRep: 3, Unreach: 0.1, ReadIndex: 0.03, Partition: 0.35, Heal: 0.3,
+		Sleep: 0, Wake: 0.12, HoldSnap: 0.7, SnapBatch: 40, PNoMore: 0.03, PBusy: 0.03, PRndZero: 0.2, PAll: 0.8, MaxConf: 3},
 	"stale": {Name: "stale", Tick: 5, Step: 8, Ready: 10, Deliver: 8, Redeliver: 4, Drop: 0.2, Propose: 2, Conf: 0.1, Apply: 3,
 		Crash: 0.06, CrashMid: 0.08, Restart: 1.5, Compact: 0.3, Transfer: 0.4, SnapRep: 1, Unreach: 0.1, ReadIndex: 0.03, Partition: 0.6, Heal: 0.4,
 		PNoMore: 0.03, PBusy: 0.02, PRndZero: 0.4, PAll: 0.7, MaxConf: 3},
 }
 
 // ProfileNames in a fixed order (for seeded selection).
-var ProfileNames = []string{"steady", "elect", "crashy", "conf", "snap", "stale", "paging", "uniform"}
+var ProfileNames = []string{"steady", "elect", "crashy", "conf", "snap", "stale", "paging", "uniform", "lagsnap"}
 
 // Gen is the seeded scheduler.
 type Gen struct {
-	R       *rand.Rand
-	C       *Cluster
-	P       Profile
-	blocked map[[2]uint64]bool
-	deliv   map[int]int
-	nconf   int
-	removed map[uint64]bool
-	Hist    map[string]int
+	R          *rand.Rand
+	C          *Cluster
+	P          Profile
+	blocked    map[[2]uint64]bool
+	deliv      map[int]int
+	nconf      int
+	removed    map[uint64]bool
+	asleep     map[uint64]bool
+	hold       map[int]int // network id of a held MsgSnap -> generator calls left
+	seenSn     map[int]bool
+	forced     []Event
+	forcedCand []Event
+	Hist       map[string]int
 }
 
 func NewGen(r *rand.Rand, c *Cluster, p Profile) *Gen {
-	return &Gen{R: r, C: c, P: p, blocked: map[[2]uint64]bool{}, deliv: map[int]int{}, removed: map[uint64]bool{}, Hist: map[string]int{}}
+	return &Gen{R: r, C: c, P: p, blocked: map[[2]uint64]bool{}, deliv: map[int]int{}, removed: map[uint64]bool{}, asleep: map[uint64]bool{}, hold: map[int]int{}, seenSn: map[int]bool{}, Hist: map[string]int{}}
 }
 
 type cand struct {
@@ -92,6 +107,21 @@ func (g *Gen) Next() Event {
 func (g *Gen) next() (Event, bool) {
 	c := g.C
 	p := g.P
+	for len(g.forced) > 0 {
+		ev := g.forced[0]
+		g.forced = g.forced[1:]
+		switch ev.K {
+		case "deliver":
+			if m, ok := c.Msg(ev.M); ok && c.View(m.To).Alive {
+				g.deliv[ev.M]++
+				return ev, true
+			}
+		case "step":
+			if v := c.View(ev.N); v.Alive && !v.InFlight {
+				return ev, true
+			}
+		}
+	}
 	var cs []cand
 	add := func(w float64, ev Event) {
 		if w > 0 {
@@ -122,7 +152,9 @@ func (g *Gen) next() (Event, bool) {
 	haveLeader := len(leaders) > 0
 	for _, id := range alive {
 		v := views[id]
-		if v.QueuedTicks < 60 {
+		// a sleeping node gets no ticks: several election timeouts inside ONE StepNode would create messages of
+		// terms that are over by the time the Ready is sent (legal, but outside what the abstract acceptor relates)
+		if v.QueuedTicks < 60 && !g.asleep[id] {
 			w := p.Tick / na
 			if !haveLeader {
 				w *= 3
@@ -138,6 +170,9 @@ func (g *Gen) next() (Event, bool) {
 				w *= 2
 			} else {
 				w *= 0.3
+			}
+			if g.asleep[id] {
+				w *= 0.02
 			}
 			add(w, Event{K: "step", N: id, Rnd: g.rnd(), NoMore: g.R.Float64() < p.PNoMore, Busy: g.R.Float64() < p.PBusy})
 			add(p.Crash/na, Event{K: "crash", N: id})
@@ -163,6 +198,29 @@ func (g *Gen) next() (Event, bool) {
 			m, _ := c.Msg(id)
 			if !views[m.To].Alive || g.blocked[[2]uint64{m.From, m.To}] {
 				continue
+			}
+			if m.Type == pb.MsgSnap && g.deliv[id] == 0 {
+				if !g.seenSn[id] {
+					g.seenSn[id] = true
+					if g.R.Float64() < p.HoldSnap {
+						g.hold[id] = 400
+					}
+				}
+				if g.hold[id] > 0 {
+					g.hold[id]--
+					// the MsgApp that the sender issued after this snapshot (transport said "sent", a heartbeat response resumed it)
+					if p.SnapBatch > 0 && m.Snapshot.Metadata.Index > 0 && !views[m.To].InFlight {
+						for _, id2 := range ids {
+							m2, _ := c.Msg(id2)
+							if g.deliv[id2] == 0 && m2.Type == pb.MsgApp && m2.To == m.To && m2.From == m.From && m2.Index >= m.Snapshot.Metadata.Index && len(m2.Entries) > 0 {
+								g.forcedCand = []Event{{K: "deliver", N: m.To, M: id}, {K: "deliver", N: m.To, M: id2}, {K: "step", N: m.To, Rnd: g.rnd()}}
+								add(p.SnapBatch, Event{K: "_snapbatch"})
+								break
+							}
+						}
+					}
+					continue
+				}
 			}
 			if g.deliv[id] == 0 {
 				fresh = append(fresh, id)
@@ -216,6 +274,12 @@ func (g *Gen) next() (Event, bool) {
 		}
 	}
 	// partitions (generator-internal: they only bias which messages get delivered)
+	if p.Sleep > 0 && len(alive) > 1 && len(g.asleep) < 2 {
+		add(p.Sleep, Event{K: "_sleep", N: alive[g.R.Intn(len(alive))]})
+	}
+	if len(g.asleep) > 0 {
+		add(p.Wake*float64(len(g.asleep)), Event{K: "_wake"})
+	}
 	add(p.Partition, Event{K: "_part"})
 	if len(g.blocked) > 0 {
 		add(p.Heal, Event{K: "_heal"})
@@ -270,6 +334,21 @@ func (g *Gen) next() (Event, bool) {
 		return Event{}, false
 	case "_heal":
 		g.blocked = map[[2]uint64]bool{}
+		return Event{}, false
+	case "_snapbatch":
+		g.forced = g.forcedCand
+		g.forcedCand = nil
+		for _, f := range g.forced {
+			if f.K == "deliver" {
+				delete(g.hold, f.M)
+			}
+		}
+		return Event{}, false
+	case "_sleep":
+		g.asleep[ev.N] = true
+		return Event{}, false
+	case "_wake":
+		g.asleep = map[uint64]bool{}
 		return Event{}, false
 	case "deliver":
 		g.deliv[ev.M]++
